@@ -171,6 +171,8 @@ type workerOut struct {
 	Blocking int            `json:"blocking"`
 	Done     int            `json:"done"`    // inputs of this batch consumed so far (incl. skipped)
 	HungAt   int            `json:"hung_at"` // >0: the input with this ordinal never returned; resume after it
+	// inputs not explored because an earlier input of the same command hung in this batch
+	SkippedAfterHang int `json:"skipped_after_hang"`
 }
 
 func newInst() *inproc.Inst {
@@ -186,6 +188,7 @@ func worker(o *common.Opts) {
 	j, _ := os.OpenFile(*fJournal, os.O_CREATE|os.O_WRONLY|os.O_APPEND, 0o644)
 	out := workerOut{PerCmd: map[string]int{}, Kinds: map[string]int{}}
 	seen := map[string]bool{}
+	hungCmds := map[string]bool{}
 	names := inproc.Commands()
 	sort.Strings(names)
 	n := 0
@@ -206,6 +209,10 @@ func worker(o *common.Opts) {
 			mine++
 			out.Done = mine
 			if mine <= *fSkip {
+				return
+			}
+			if hungCmds[name] {
+				out.SkippedAfterHang++
 				return
 			}
 			cmd := respc.Cmd(argv...)
@@ -234,10 +241,11 @@ func worker(o *common.Opts) {
 					}
 				}
 				out.Wits = append(out.Wits, witness{Kind: "hang", Argv: seqrun.QuoteFull(cmd), Detail: "command did not return within 30s; its goroutine:\n" + stack, Sig: "hang|" + strings.ToUpper(name)})
-				out.HungAt = mine
-				b, _ := json.Marshal(out)
-				_ = os.WriteFile(*fOut, b, 0o644)
-				os.Exit(3)
+				// every input runs on its own database, so the stuck goroutine is simply left behind; the remaining
+				// inputs of this command in this batch are not explored (the violation is already established)
+				hungCmds[name] = true
+				out.SkippedAfterHang++
+				return
 			}
 			out.Inputs++
 			out.PerCmd[name]++
@@ -707,6 +715,7 @@ func main() {
 		}
 		agg.Inputs += w.Inputs
 		agg.Blocking += w.Blocking
+		agg.SkippedAfterHang += w.SkippedAfterHang
 		for k, v := range w.PerCmd {
 			agg.PerCmd[k] += v
 		}
